@@ -35,6 +35,7 @@ RULE = ("quick: every DAG shape on <= 3 nodes x every delivery permutation x {pl
         "before one of its dependencies (it has to wait or stay blocked) and at least two items are released")
 NONTRIVIAL_FLOOR = 50
 HARNESS_TIMEOUT = 1800
+COQ_SHARD = 100
 
 
 # ------------------------------------------------------------------------------------------------
